@@ -8,6 +8,7 @@ import (
 	"io"
 	"net/http"
 	"net/http/httptest"
+	neturl "net/url"
 	"sort"
 	"strings"
 	"sync"
@@ -244,7 +245,11 @@ func runC20(e *core.Env) error {
 	// source): the property wants exactly the configured tasks running; recorded finding: nothing runs
 	{
 		verdict, _ := managerScenarioOpts(ctx, r.Fork(), 900, true)
-		e.Add(core.Case{Impl: verdict, Spec: "ok", Class: "C20.reload_error", Key: "mgr-reload-error", Nontrivial: true, Tags: []string{"manager-reload-error"}})
+		class := ""
+		if strings.HasPrefix(verdict, "after a restart whose reload failed") {
+			class = "C20.reload_error" // the recorded finding, and nothing else this scenario may observe
+		}
+		e.Add(core.Case{Impl: verdict, Spec: "ok", Class: class, Key: "mgr-reload-error", Nontrivial: true, Tags: []string{"manager-reload-error"}})
 	}
 	return c20Binary(e)
 }
@@ -468,6 +473,31 @@ func managerScenarioOpts(ctx context.Context, rr *core.Rand, s int, badReload bo
 			n := 0
 			for _, v := range running {
 				n += v
+			}
+			// the way out of that state: the missing source is stored through the dashboard's own handler, which
+			// restarts the manager — afterwards exactly the configured set runs (the integration that was waiting
+			// for its source included)
+			form := neturl.Values{"chainID": {"9"}, "name": {"nosuch"}, "ethURL": {node.URL() + "/nocache"}}
+			rq := httptest.NewRequest("POST", "/save-source", strings.NewReader(form.Encode()))
+			rq.Header.Set("Content-Type", "application/x-www-form-urlencoded")
+			rc := httptest.NewRecorder()
+			web.New(mgr, &conf, pool).SaveSource(rc, rq)
+			if rc.Code >= 400 {
+				return fmt.Sprintf("the dashboard refused to store the source: %d %s", rc.Code, trunc2(rc.Body.String())), tags
+			}
+			time.Sleep(150 * time.Millisecond)
+			for _, ev := range shovel.VerifEvents() {
+				switch ev.Kind {
+				case "task-start":
+					running[ev.Src+"/"+ev.IG]++
+				case "task-stop":
+					running[ev.Src+"/"+ev.IG]--
+				}
+			}
+			for _, want := range []string{"s1/iga", "nosuch/igdb0"} {
+				if running[want] != 1 {
+					return fmt.Sprintf("the source an integration was waiting for has been stored through the dashboard (answer %d); %s has %d runners — running: %v", rc.Code, want, running[want], running), tags
+				}
 			}
 			if err != nil && n == 0 {
 				return "after a restart whose reload failed (" + trunc2(err.Error()) + ") no task is running", tags
